@@ -67,11 +67,12 @@ Example C05_example_recheck :
   = (2, 2, 1%nat, 1%nat, 1%nat, true, [], [], false).
 Proof. vm_compute. reflexivity. Qed.
 
-(* non-vacuity 2: the slow path: the send loop holds `writing` for another event, the producer's
-   polling event travels through sendCh and arrives behind it *)
+(* non-vacuity 2: the slow path: the send loop holds `writing` for another event (a stream-close event), the
+   producer's polling event travels through sendCh and arrives behind it; the consumer empties the queue
+   in front of the stream-close event, so the polling event finds it empty *)
 Example C05_example_slow_path :
   let P i n := repeat (WProd i) n in let C n := repeat WCons n in let S n := repeat WSend n in
-  summary (run (P 1%nat 1%nat ++ S 2%nat ++ P 0%nat 4%nat ++ S 5%nat ++ C 1%nat ++ S 1%nat ++ C 9%nat)
+  summary (run (P 1%nat 1%nat ++ S 2%nat ++ P 0%nat 4%nat ++ S 5%nat ++ C 1%nat ++ S 1%nat ++ C 14%nat)
                (init [[OpSend]; [OpOther]]))
   = (1, 1, 1%nat, 1%nat, 1%nat, true, [], [], false).
 Proof. vm_compute. reflexivity. Qed.
